@@ -1438,6 +1438,19 @@ fn replay(case: &Value, l: &mut Local) {
             };
             check_hosts_entry(case["host"].as_str().unwrap_or(""), case["line"].as_str().unwrap_or(""), u, l)
         }
+        "hosts-overlong" => {
+            let line = case["line"].as_str().unwrap_or("");
+            l.compared += 1;
+            match catch(|| parse_filter(line, true, opts(FilterFormat::Hosts, RuleTypes::All, 0)).is_ok()) {
+                Ok(false) => {}
+                other => l.mismatch(Mismatch {
+                    sig: "c11.hosts.line-with-more-than-two-fields-accepted".into(),
+                    what: format!("hosts line {:?} has more than an address and a single hostname but is not refused: {:?}", line, other),
+                    case: case.clone(),
+                    size: line.len() as u64,
+                }),
+            }
+        }
         "ruletypes" => check_rule_types(&lines, format, &bat, l),
         _ => probe_text(case["text"].as_str().unwrap_or(""), part, true, &bat, l),
     }
@@ -1533,6 +1546,34 @@ fn check(ctx: &Ctx) -> i32 {
         let h = HOSTS[(i / per) as usize];
         let line = &hosts_lines(h)[(i % per) as usize];
         check_hosts_entry(h, line, &uni, l);
+    });
+
+    // (e2) lines that are not of the documented hosts format ("an IP address, some whitespace, and a
+    // single hostname", or just a hostname): three or more fields. Such a line is no entry - it is
+    // refused, whatever its fields are.
+    let extra_fields: [&str; 5] = ["other.example", "other.example third.example", "0.0.0.0", "other.example # c", "\t\u{3000}x.y"];
+    ctx.bound("e2_overlong_hosts_lines", HOSTS.len() * extra_fields.len() * 2);
+    ctx.par_range("e2-hosts-lines-with-more-fields", (HOSTS.len() * extra_fields.len() * 2) as u64, 8, |i, l| {
+        let h = HOSTS[i as usize / (extra_fields.len() * 2)];
+        let extra = extra_fields[(i as usize / 2) % extra_fields.len()];
+        let line = if i % 2 == 0 { format!("0.0.0.0 {} {}", h, extra) } else { format!("{} 127.0.0.1 {}", h, extra) };
+        l.evaluations += 1;
+        l.compared += 1;
+        l.nontrivial += 1;
+        let case = json!({"part": "hosts-overlong", "line": line});
+        match catch(|| parse_filter(&line, true, opts(FilterFormat::Hosts, RuleTypes::All, 0)).is_ok()) {
+            Err(loc) => panic_mismatch(l, &loc, "parse_filter (hosts format)", case, line.len() as u64),
+            Ok(false) => l.hist("hosts:overlong-refused"),
+            Ok(true) => {
+                l.hist("hosts:OVERLONG-ACCEPTED");
+                l.mismatch(Mismatch {
+                    sig: "c11.hosts.line-with-more-than-two-fields-accepted".into(),
+                    what: format!("hosts line {:?} has more than an address and a single hostname (the documented format) but is accepted as an entry", line),
+                    case,
+                    size: line.len() as u64,
+                });
+            }
+        }
     });
 
     // (f) rule types at list level: all lists over the good rules, and hosts files
